@@ -21,7 +21,7 @@ ID = "C04"
 V4 = "3f7f0c5f-5d54-4292-94ea-ec1e1952be0"
 # injection kinds that are custom content by the specification (strict mode must refuse them); the other kinds are judged only through
 # the equivalence flag <=> strict re-parse
-MUST_REFUSE = {"extensions-claim-inside-helper-object", "ref-to-marking-flavour-name", "ref-to-extension-name", "unregistered-type", "unregistered-type+extdef-property-extension", "unregistered-type+extdef-toplevel-extension",
+MUST_REFUSE = {"ref-to-registered-custom-type", "extensions-claim-inside-helper-object", "ref-to-marking-flavour-name", "ref-to-extension-name", "unregistered-type", "unregistered-type+extdef-property-extension", "unregistered-type+extdef-toplevel-extension",
                "x-property", "unknown-property", "unregistered-extension", "unknown-hash", "non-vocabulary-hash", "ref-to-unregistered-type", "unregistered-member-type",
                "custom_properties-in-json", "custom-property-in-extdef-toplevel-object", "extension-key-names-object-type", "extension-key-names-observable-type",
                "extension-key-names-marking-flavour", "unknown-hash-first", "non-vocabulary-hash-first", "ref-to-2.1-only-type", "extensions-claim-without-extension-mechanism", "x-property-next-to-unregistered-property-extension", "x-property-next-to-unregistered-new-sdo",
@@ -78,6 +78,9 @@ def sites(base, version, tkey):
             out.append(("hashes", path, "non-vocabulary-hash", lambda j, path=path, nv=nv: _set(j, path + (nv,), gen.HASHES[nv] if nv != "TLSH" else "0a" * 35)))
         if k == "ref" and isinstance(v, str):
             out.append(("reference", path, "ref-to-unregistered-type", lambda j, path=path: gen.set_path(j, path, "x-unreg--" + V4 + "2")))
+            # a custom type stays custom content when a class has been registered for it (object and observable flavour)
+            out.append(("reference", path, "ref-to-registered-custom-type", lambda j, path=path: gen.set_path(j, path, "x-verif-c04-obj--" + V4 + "2")))
+            out.append(("reference", path, "ref-to-registered-custom-type", lambda j, path=path: gen.set_path(j, path, "x-verif-c04-sco--" + V4 + "2")))
             # names that ARE registered with the library, but not as object types
             out.append(("reference", path, "ref-to-marking-flavour-name", lambda j, path=path: gen.set_path(j, path, "statement--" + V4 + "2")))
             out.append(("reference", path, "ref-to-extension-name", lambda j, path=path: gen.set_path(j, path, "archive-ext--" + V4 + "2")))
@@ -323,7 +326,7 @@ def unregistered_bases(version):
     return out
 
 
-EXT_A, EXT_B = "extension-definition--" + V4[:-4] + "c4a1", "extension-definition--" + V4[:-4] + "c4a2"
+EXT_A, EXT_B = "extension-definition--" + V4[:-2] + "ca1", "extension-definition--" + V4[:-2] + "ca2"
 
 
 def registered_toplevel_bases():
@@ -360,9 +363,60 @@ def registered_toplevel_bases():
     return out
 
 
+def register_custom_types():
+    import stix2
+    from stix2 import properties as P
+    for ver, mod in (("2.0", stix2.v20), ("2.1", stix2.v21)):
+        R = stix2.registry.STIX2_OBJ_MAPS[ver]
+        if "x-verif-c04-obj" not in R["objects"]:
+            @mod.CustomObject("x-verif-c04-obj", [("name", P.StringProperty())])
+            class XObj(object):
+                pass
+        if "x-verif-c04-sco" not in R["observables"]:
+            @mod.CustomObservable("x-verif-c04-sco", [("value", P.StringProperty())])
+            class XSco(object):
+                pass
+
+
+EXT_LATE = "extension-definition--" + V4[:-2] + "ca3"
+
+
+def late_registration(part):
+    """HISTORY: an extension is used while it is still unregistered (every extra property is then assumed to be its own), registered afterwards, and used again:
+    from the registration on, only the properties it defines are its own"""
+    import stix2
+    from stix2 import properties as P
+    g = gen.Gen("2.1")
+    tl = {"extension_type": "toplevel-property-extension"}
+    b = g.minimal("objects:identity")
+    if EXT_LATE not in stix2.registry.STIX2_OBJ_MAPS["2.1"]["extensions"]:
+        for fn in (lambda: stix2.parse(dict(b, tl_late=1, anything_else=2, extensions={EXT_LATE: dict(tl)}), allow_custom=False),
+                   lambda: stix2.v21.Identity(allow_custom=True, **dict(b, tl_late=1, extensions={EXT_LATE: dict(tl)}))):
+            try:
+                fn()
+                part.outcome("late-registration:used-before")
+            except Exception:
+                part.outcome("late-registration:refused-before")
+
+        @stix2.v21.CustomExtension(EXT_LATE, [("tl_late", P.IntegerProperty())])
+        class ExtLate(object):
+            extension_type = "toplevel-property-extension"
+    for inj, label, j in ((None, "late/own-property", dict(b, tl_late=3, extensions={EXT_LATE: dict(tl)})),
+                          ("x-property", "late/own-property+x-property", dict(b, tl_late=3, x_bogus=1, extensions={EXT_LATE: dict(tl)})),
+                          ("unknown-property", "late/unknown-property", dict(b, anything_else=2, extensions={EXT_LATE: dict(tl)}))):
+        part.state(("registered-toplevel", "identity", label), nontrivial=True)
+        c = {"kind": "registered-toplevel", "label": label, "type": "identity", "injection": inj}
+        judge(part, j, "2.1", inj, c, "registered-toplevel-extensions/" + label, 1 if inj else 0, stores=True)
+
+
 def run_case(case, part):
     env.reset()
+    register_custom_types()
     if case.get("kind") == "registered-toplevel":
+        if case.get("label") is None or str(case.get("label")).startswith("late/"):
+            late_registration(part)
+            if case.get("label") is not None:
+                return
         for inj, label, j in registered_toplevel_bases():
             if case.get("label") not in (None, label) or case.get("type") not in (None, j["type"]):
                 continue
